@@ -494,16 +494,21 @@ def run(ck, info, pr):
 
     # ---------------- stream: expression formatter
     cases = []
-    for key, e in G.triples():
-        cases.append(("corr-fmt-triples", G.src(e)))
+    # quick tier: a seeded sample of the exhaustive (parent, side, child) triples goes through the Coq model (all of them in
+    # the thorough tier); the direct oracle stream `oracle-triples` runs every triple in both tiers
+    triples = [G.src(e) for key, e in G.triples()]
+    if not ck.thorough:
+        triples = rng.sample(triples, min(len(triples), 400))
+    for s in triples:
+        cases.append(("corr-fmt-triples", s))
     for a in G.ADJACENCY:
         cases.append(("corr-fmt-adjacency", a))
-    for key, e in G.quads(rng, ck.n(200, 4000)):
+    for key, e in G.quads(rng, ck.n(120, 4000)):
         cases.append(("corr-fmt-quads", G.src(e)))
-    for _ in range(ck.n(300, 6000)):
+    for _ in range(ck.n(160, 6000)):
         d = rng.choice([2, 3, 3, 4])
         cases.append(("corr-fmt-random", G.src(G.gen_expr(rng, d, {"clean": rng.random() < 0.7}))))
-    for _ in range(ck.n(100, 2000)):
+    for _ in range(ck.n(60, 2000)):
         cases.append(("corr-fmt-random", G.src(G.gen_expr(rng, 3, {"clean": False, "lits": False, "idq": 0.0, "idk": 0.0}))))
     answers = harness("c14", [{"src": "let v = " + s + "\n", "targets": [], "compile": False} for _, s in cases])
     todo = []
@@ -586,14 +591,14 @@ def run(ck, info, pr):
             syms.append(tx)
     symidx = {s: i for i, s in enumerate(syms)}
     psrc = []
-    for key, e in G.triples():
-        psrc.append(("corr-parser-triples", G.src(e)))
+    for s in triples:
+        psrc.append(("corr-parser-triples", s))
     for a in G.ADJACENCY:
         psrc.append(("corr-parser-adjacency", a))     # incl. aliases in parentheses at every operand position, lambdas
     for (stream, s, t, real, v), mt in zip(todo, texts):
-        if stream != "corr-fmt-triples" and "\n" not in real and len(psrc) < ck.n(1900, 9000):
+        if stream != "corr-fmt-triples" and "\n" not in real and len(psrc) < ck.n(900, 9000):
             psrc.append(("corr-parser-fmt-output", real))
-    for _ in range(ck.n(200, 3000)):
+    for _ in range(ck.n(120, 3000)):
         e = G.gen_expr(rng, 3, {"clean": True, "lits": True, "rich": True})
         psrc.append(("corr-parser-random", drop_parens(rng, G.src(e))))
     pa = harness("c14", [{"src": "let v = " + s + "\n", "targets": [], "compile": False} for _, s in psrc])
@@ -659,17 +664,17 @@ def run_programs(ck, symidx):
         for s in ([r["src"]] if "src" in r else []) + list(r.get("srcs", [])):
             cases.append(("corr-prog-directed", s))
     P.CLEAN[0] = True
-    for _ in range(ck.n(300, 4000)):
+    for _ in range(ck.n(150, 4000)):
         cases.append(("corr-prog-syntactic", P.syntactic(rng)))
-    for _ in range(ck.n(120, 2000)):
+    for _ in range(ck.n(70, 2000)):
         cases.append(("corr-prog-compilable", P.compilable(rng)))
     P.CLEAN[0] = False
-    for _ in range(ck.n(120, 2000)):
+    for _ in range(ck.n(70, 2000)):
         cases.append(("corr-prog-hostile", P.syntactic(rng)))
     P.CLEAN[0] = True
-    for _ in range(ck.n(150, 2500)):
+    for _ in range(ck.n(80, 2500)):
         cases.append(("corr-prog-longlines", P.long_lines(rng)))
-    for _ in range(ck.n(150, 2500)):
+    for _ in range(ck.n(80, 2500)):
         cases.append(("corr-prog-types", "type %s = %s\n" % (rng.choice(["t", "`my ty`", "long_type_name"]), G.gen_type(rng, rng.choice([1, 2, 2, 3])))))
     answers = harness("c14", [{"src": s, "targets": [], "compile": False} for _, s in cases])
     todo = []
